@@ -29,7 +29,7 @@ def wrong_values(rng, cur, width, full):
     n = 1 << (8 * width)
     if width == 1 and full:
         return [v for v in range(256) if v != cur]
-    vals = {(cur + 1) % n, (cur - 1) % n, 0, n - 1, cur ^ (n >> 1)}
+    vals = {(cur + 1) % n, (cur - 1) % n, 0, n - 1, cur ^ (n >> 1)} | ({1, 2, 3, 4, 5, 6} if width == 1 else {1, 0x100})     # the small values the named constants have
     for b in range(8 * width):
         vals.add(cur ^ (1 << b))
     if width > 1:
